@@ -242,7 +242,8 @@ func c03Lo(deck int) int64 {
 	return 2
 }
 
-// Harness_C03_Factor: step 1 for one symbolic hand in arbitrary input order.
+// Harness_C03_Factor: step 1 for one symbolic hand. sortedInput: 0 arbitrary input order, 1 non-increasing
+// rank order, 2 rank order with one arbitrary transposition.
 func Harness_C03_Factor(table int, deck int, sortedInput int) {
 	pr := c03Table(table)
 	var cards [5]string
@@ -268,6 +269,17 @@ func Harness_C03_Factor(table int, deck int, sortedInput int) {
 			a69 = vAnd(a69, has)
 		}
 		vAssume(!a69)
+	}
+	if sortedInput == 2 {
+		// thorough-tier bound: rank order disturbed by one arbitrary transposition (or none)
+		k := vChoice("transposition", 11)
+		if k > 0 {
+			pairs := [10][2]int{{0, 1}, {0, 2}, {0, 3}, {0, 4}, {1, 2}, {1, 3}, {1, 4}, {2, 3}, {2, 4}, {3, 4}}
+			a, b := pairs[k-1][0], pairs[k-1][1]
+			cards[a], cards[b] = cards[b], cards[a]
+			s[a], s[b] = s[b], s[a]
+			r[a], r[b] = r[b], r[a]
+		}
 	}
 	ps := CalculatePower(pr, []string{cards[0], cards[1], cards[2], cards[3], cards[4]})
 	t := c03Ref(r, s)
